@@ -18,7 +18,9 @@ ASSUMPTIONS = ['comparisons are between local wall-clock seconds (the statement\
 BUDGET = {'quick': 50, 'thorough': 600}
 ZONES = ['UTC', 'Europe/Berlin', 'Asia/Kolkata']
 BASES = [(2021, 3, 4, 5, 6, 7), (2021, 4, 30, 23, 59, 59), (2020, 12, 31, 23, 59, 59), (2020, 2, 29, 12, 0, 0),
-         (2021, 1, 1, 0, 0, 0), (2021, 3, 28, 12, 30, 0), (2021, 10, 31, 1, 30, 0), (2019, 7, 9, 8, 5, 3)]
+         (2021, 1, 1, 0, 0, 0), (2021, 3, 28, 12, 30, 0), (2021, 10, 31, 1, 30, 0), (2019, 7, 9, 8, 5, 3),
+         # years outside 1970..2999 (an unquoted literal must still be a date, not a subtraction)
+         (1969, 12, 31, 10, 20, 30), (1950, 6, 15, 12, 0, 0), (2400, 2, 29, 1, 2, 3)]
 OPS = {'=': ['=', '==', 'eq'], '!=': ['!=', '<>', 'ne'], '<': ['<', 'lt'], '>': ['>', 'gt'], '<=': ['<=', 'lte', 'le'],
        '>=': ['>=', 'gte', 'ge']}
 
@@ -205,7 +207,7 @@ def eval_group(env, group, tier):
             return []
         today = now.replace(hour=0, minute=0, second=0)
         times = {}
-        for k in range(-9, 3):
+        for k in list(range(-9, 3)) + [-1201, -1200, -1199, -1001, -1000, -999, -998, 999, 1000, 1001]:
             d = today + dt.timedelta(days=k)
             for i_, e0 in enumerate(near_epochs(d, zone)):
                 for j, p in enumerate((e0 - 1, e0, e0 + 43200)):
@@ -215,7 +217,8 @@ def eval_group(env, group, tier):
         try:
             conds = []
             rel = [('today', 0), ('yesterday', -1), ("'today'", 0)] + [("'%+d'" % k, k) for k in range(-7, 2) if k != 0] + \
-                  [('-1', -1), ('-3', -3), ('-7', -7)]
+                  [('-1', -1), ('-3', -3), ('-7', -7), ('-999', -999), ('-1000', -1000), ("'-1200'", -1200), ('-1200', -1200), ("'+1000'", 1000),
+                   ('+1', 1), ('+2', 2), ('+1000', 1000)]
             for text, k in rel:
                 a = today + dt.timedelta(days=k)
                 b = a.replace(hour=23, minute=59, second=59)
